@@ -82,7 +82,9 @@ fn check<T: Scalar>(spec: &Spec, alpha: &[f64], depth: usize, st: &mut Stats, si
             let want = expected::<T>(spec, &s.kids, Some(x));
             st.oracle_evals += 1;
             st.out(got.map(|g| g.f()));
-            if !same_mod_zero(got, want) {
+            // only max / min of a signed-zero pair has no defined sign; everything else is bit-exact
+            let ok = if matches!(spec.kind, Kind::GTE | Kind::LTE) { same_mod_zero(got, want) } else { crate::scalar::opt_same(got, want) };
+            if !ok {
                 sink.push(Violation::new(
                     "C14",
                     spec,
@@ -158,6 +160,17 @@ pub fn specs() -> Vec<Spec> {
     v
 }
 
+/// magnitudes from the subnormal edge to the overflow edge, both signs, signed zeros, and the
+/// neighbourhood where tanh saturates in f32 and f64
+pub const LADDER: [f64; 23] = [0.0, -0.0, 1e-300, 1e-20, 1e-8, 0.1, 0.5, 1.0, 2.0, 4.0, 7.97, 8.0, 9.0, 9.01, 16.0, 18.0, 18.02, 18.5, 19.0, 19.06, 20.0, 40.0, 700.0];
+
+fn ladder() -> Vec<f64> {
+    let mut v = LADDER.to_vec();
+    v.extend(LADDER.iter().filter(|x| **x != 0.0).map(|x| -x));
+    v.extend([1e20, -1e20, 1e150, -1e150]);
+    v
+}
+
 pub fn run(ctx: &Ctx) -> CheckOutput {
     let quick = ctx.tier == Tier::Quick;
     let depth = if quick { 6 } else { 9 };
@@ -173,6 +186,37 @@ pub fn run(ctx: &Ctx) -> CheckOutput {
             }
             JobOut { stats: st, viols: sink.take(), samples: vec![json!({"explorer":"TREE","scalar":"f64","view":spec.name(),"alphabet":Z5,"depth":depth})] }
         }));
+    }
+    // the stateless functions over a ladder of magnitudes (depth 2: they have no memory to fill)
+    {
+        use Kind::*;
+        let e = Spec::echo;
+        let mut specs = vec![Spec::un(Tanh, 0, e()), e(), Spec::constant(1e-300), Spec::constant(-0.0)];
+        for c in [0.0, -0.0, 18.5, -1e-300] {
+            specs.push(Spec::unp(GTE, 0, vec![c], e()));
+            specs.push(Spec::unp(LTE, 0, vec![c], e()));
+        }
+        for k in crate::spec::BINARY {
+            for other in [Spec::constant(2.0), Spec::constant(-0.5), Spec::un(Cumulative, 2, e())] {
+                if k == Divide && other.kind != Constant {
+                    continue;
+                }
+                specs.push(Spec::bin(k, e(), other.clone()));
+                if k != Divide {
+                    specs.push(Spec::bin(k, other, e()));
+                }
+            }
+        }
+        specs.push(Spec::bin(Divide, Spec::constant(1.0), Spec::unp(GTE, 0, vec![1e-30], e())));
+        for spec in specs {
+            jobs.push(Box::new(move || {
+                let mut st = Stats::default();
+                let sink = Sink::new();
+                check::<f64>(&spec, &ladder(), 2, &mut st, &sink);
+                check::<f32>(&spec, &ladder()[..46], 2, &mut st, &sink);
+                JobOut { stats: st, viols: sink.take(), samples: vec![json!({"explorer":"TREE","view":spec.name(),"alphabet":"magnitude ladder 1e-300..1e150, both signs, signed zeros","depth":2})] }
+            }));
+        }
     }
     let o = run_jobs(jobs, ctx.seed);
     CheckOutput {
